@@ -38,7 +38,7 @@ import cfggen
 import flow
 import mockca
 import vlib
-from ext import c06place
+from ext import c06nb, c06place
 
 NS = 10 ** 9
 DAY = 86400
@@ -148,9 +148,14 @@ def gen_triple(rng, idx, root):
         # what IS on disk: a complete valid pair under a naming the configuration does not select
         decoy = rng.choice(["default-naming", "other-key-type", "other-name", "other-ext"])
     d = os.path.join(root, "x%d" % idx)
+    lead_text = rng.random() < 0.2
+    # when the validity of the end-entity certificate (and of the certificates after it) BEGINS: py/ext/c06nb.py
+    nb_class, nb = c06nb.pick(rng)
+    for c in chain:
+        c["nb"] = c06nb.pick(rng, 0.6)[1]
     return {"dir": d, "ids": ids, "delay_s": delay, "rer_s": rer, "cert_dns": cert_dns, "cert_ips": cert_ips,
             "not_after_offset": na, "present": present, "shape": shape, "chain": chain,
-            "lead_text": rng.random() < 0.2, "naming": naming, "decoy": decoy}
+            "lead_text": lead_text, "naming": naming, "decoy": decoy, "not_before_offset": nb, "nb_class": nb_class}
 
 
 def decoy_naming(t):
@@ -172,13 +177,13 @@ def prepare(helper, t):
     # (the key type of the file NAME is a naming dimension; the certificate itself is always P-256)
     r = helper.call({"op": "selfsigned", "dns": t["cert_dns"], "ips": t["cert_ips"],
                      "not_after_offset": t["not_after_offset"],
-                     "not_before_offset": min(-3600, t["not_after_offset"] - 3600)})
+                     "not_before_offset": c06nb.offset_for(t, min(-3600, t["not_after_offset"] - 3600))})
     if "err" in r:
         return r
     pem = r["cert_pem"]
     for c in t["chain"]:
         o = helper.call({"op": "selfsigned", "dns": c["dns"], "ips": c["ips"], "not_after_offset": c["na"],
-                         "not_before_offset": min(-3600, c["na"] - 3600)})
+                         "not_before_offset": c["nb"] if c.get("nb") is not None else min(-3600, c["na"] - 3600)})
         if "err" in o:
             return o
         pem += o["cert_pem"]
@@ -250,6 +255,7 @@ def check_triples(ctx, triples, tag="x:"):
         ctx.count(tag + "files:" + t["present"])
         ctx.count(tag + "sans:" + t["shape"])
         ctx.count(tag + "chain:%d" % (1 + len(t["chain"])))
+        c06nb.count(ctx, tag, t, ":files=%s:sans=%s:chain=%d" % (t["present"], t["shape"], 1 + len(t["chain"])))
         ctx.count(tag + "decoy:%s" % t["decoy"])
         ctx.count(tag + "naming:%s" % ("default" if not any(t["naming"].get(k) for k in ("name_format", "cert_file_ext", "pk_file_ext")) else "custom"))
         if t["delay_s"] >= 2 ** 31 or t["rer_s"] >= 2 ** 31:
@@ -321,6 +327,12 @@ def loop_scenarios(ctx):
         {"kind": "short", "valid_secs": 15, "delay_s": 4, "rer_s": 3, "watch_s": 17, "neighbour": "other-account"},
         # the file of a fresh certificate removed while the daemon runs, before the evaluation that follows the issuance
         {"kind": "removed", "valid_secs": 90 * DAY, "watch_s": 10, "neighbour": "same-account"},
+        # a CA whose clock runs AHEAD of the client's (or that does not back-date): the certificate just issued is not
+        # valid yet for the local clock — it is not renewed again immediately; a short-lived one is renewed when due
+        {"kind": "issued-fresh", "watch_s": 6, "valid_secs": 90 * DAY, "valid_from_offset": 3600},
+        {"kind": "short", "valid_secs": 13, "delay_s": 5, "rer_s": 0, "watch_s": 14, "valid_from_offset": 600},
+        # installed before the start, valid from the day after tomorrow on
+        {"kind": "installed-fresh", "watch_s": 6, "pair_secs": 90 * DAY, "valid_secs": 90 * DAY, "pair_nb_offset": 2 * DAY},
     ]
     if not ctx.quick():
         scs += [{"kind": "short", "valid_secs": ctx.rng.randint(10, 30), "delay_s": ctx.rng.randint(1, 6),
@@ -336,6 +348,12 @@ def loop_scenarios(ctx):
                  "neighbour": ["other-account", "same-account"][i % 2]} for i in range(2)]
         scs += [{"kind": "removed", "valid_secs": 90 * DAY, "watch_s": 10, "neighbour": "other-account"},
                 {"kind": "removed", "valid_secs": 90 * DAY, "watch_s": 10}]
+        scs += [{"kind": "issued-fresh", "watch_s": 8, "valid_secs": 90 * DAY, "valid_from_offset": ctx.rng.choice([3, 20, 86400, 400 * DAY]),
+                 "neighbour": ctx.rng.choice([None, "same-account"])} for _ in range(3)]
+        scs += [{"kind": "short", "valid_secs": ctx.rng.randint(10, 30), "delay_s": ctx.rng.randint(1, 6), "rer_s": ctx.rng.choice([0, 2]),
+                 "watch_s": 34, "valid_from_offset": ctx.rng.choice([2, 60, 3600])} for _ in range(3)]
+        scs += [{"kind": "installed-short", "pair_secs": ctx.rng.randint(8, 25), "delay_s": ctx.rng.randint(1, 5), "rer_s": 0,
+                 "watch_s": 30, "valid_secs": 90 * DAY, "pair_nb_offset": ctx.rng.choice([5, 3600])} for _ in range(2)]
     # the same kinds with the periods set at [global] / endpoint / certificate level, or at several levels with
     # different values (py/ext/c06place.py computes delay_s / rer_s: the most specific value)
     scs += c06place.loop_scenarios(ctx)
@@ -347,7 +365,7 @@ def loop_scenarios(ctx):
 def run_loop(sc, root, helper):
     d = os.path.join(root, "loop%d" % sc["idx"])
     os.makedirs(os.path.join(d, "certs"), exist_ok=True)
-    ca = mockca.MockCA(helper, opts={"valid_secs": sc["valid_secs"], "chain_len": 2})
+    ca = mockca.MockCA(helper, opts={"valid_secs": sc["valid_secs"], "chain_len": 2, "valid_from_offset": sc.get("valid_from_offset")})
     ca.start()
     cert = {"name": "crt", "identifiers": [{"dns": n, "challenge": "http-01"} for n in IDS], "key_type": "ecdsa_p256"}
     if sc.get("place"):
@@ -359,7 +377,8 @@ def run_loop(sc, root, helper):
     crt, key = flow.cert_paths(d, "crt")
     t_install = None
     if "pair_secs" in sc:
-        r = helper.call({"op": "selfsigned", "dns": IDS, "ips": [], "not_after_offset": sc["pair_secs"], "type": "ecdsa-p256"})
+        r = helper.call({"op": "selfsigned", "dns": IDS, "ips": [], "not_after_offset": sc["pair_secs"], "type": "ecdsa-p256",
+                         "not_before_offset": sc.get("pair_nb_offset", -3600)})
         with open(crt, "w") as f:
             f.write(r["cert_pem"])
         with open(key, "w") as f:
@@ -470,6 +489,8 @@ def judge_loop(ctx, obs):
     sc = obs["sc"]
     ctx.case({"loop": sc}, nontrivial=True)
     ctx.count("x:loop:" + sc["kind"])
+    if sc.get("valid_from_offset") or sc.get("pair_nb_offset"):
+        ctx.count("x:loop:notBefore-in-the-future:" + sc["kind"])
     robj = {"part": "x:loop", "sc": sc, "obs": {k: v for k, v in obs.items() if k != "sc"}}
     if obs["rc"] is not None:
         ctx.violation("loop scenario %s: the daemon process ended (status %s): %s" % (sc["kind"], obs["rc"], obs["stderr"][-300:]), robj)
@@ -590,7 +611,7 @@ def judge_removed(ctx, sc, obs, robj):
 
 def part_loop(ctx, helper, root):
     scs = loop_scenarios(ctx)
-    with concurrent.futures.ThreadPoolExecutor(max_workers=16) as ex:
+    with concurrent.futures.ThreadPoolExecutor(max_workers=24) as ex:
         results = list(ex.map(lambda s: run_loop(s, root, helper), scs))
     for obs in results:
         if obs["sc"].get("place"):
